@@ -115,10 +115,10 @@ StreamRead(k) ==
 HandleEnd == /\ phase = "handle" /\ phase' = "write"
              /\ UNCHANGED <<reqs, cfg, sent, eof, rd, cur, cons, interim, hlog, out, topen, pairReq, tlog>>
 
-\* the final response; the server decides to close if the request asked for it (it may also close voluntarily)
+\* the final response; `close` tells whether it carries Connection: close (announcing is not obligatory, closing is:
+\* see CloseAfter / Continue)
 Respond(close) ==
     /\ phase = "write" /\ cfg.wfail # cur
-    /\ reqs[cur].close => close
     /\ out' = Append(out, [i |-> cur, kind |-> "final", close |-> close])
     /\ phase' = "after"
     /\ UNCHANGED <<reqs, cfg, sent, eof, rd, cur, cons, interim, hlog, topen, pairReq, tlog>>
@@ -126,7 +126,10 @@ Respond(close) ==
 LastClose == out[Len(out)].close
 
 \* after the response: close, or skip the unread rest of a streamed body and go on with the next request
-CloseAfter == /\ phase = "after" /\ LastClose
+\* the connection must be closed after a response when the request or the handler asked for it, or when the
+\* response announced it
+MustClose == LastClose \/ reqs[cur].close \/ reqs[cur].hclose
+CloseAfter == /\ phase = "after" /\ MustClose
               /\ phase' = "closed"
               /\ UNCHANGED <<reqs, cfg, sent, eof, rd, cur, cons, interim, hlog, out, topen, pairReq, tlog>>
 
@@ -135,7 +138,7 @@ CloseUnread == /\ phase = "after" /\ cfg.streaming /\ rd < reqs[cur].end
                /\ phase' = "closed"
                /\ UNCHANGED <<reqs, cfg, sent, eof, rd, cur, cons, interim, hlog, out, topen, pairReq, tlog>>
 
-Continue == /\ phase = "after" /\ ~LastClose
+Continue == /\ phase = "after" /\ ~MustClose
             /\ sent >= reqs[cur].end            \* skipping the rest of the body needs its bytes
             /\ rd' = reqs[cur].end
             /\ cur' = cur + 1 /\ cons' = 0 /\ interim' = FALSE /\ phase' = "idle"
@@ -210,13 +213,13 @@ NothingAfterClose == \A k \in 1 .. Len(out) - 1 : ~out[k].close
 
 \* C02: when the connection is over and everything was delivered, the outcome is a function of the script:
 \* the handled requests are exactly the prefix up to the first request that closes / is rejected
-Stops(i) == reqs[i].close \/ Rejectable(i) \/ cfg.wfail = i
+Stops(i) == reqs[i].close \/ reqs[i].hclose \/ Rejectable(i) \/ cfg.wfail = i
 FirstStop == IF \E i \in 1 .. N : Stops(i)
              THEN CHOOSE i \in 1 .. N : Stops(i) /\ \A j \in 1 .. i - 1 : ~Stops(j)
              ELSE N + 1
 ExpectedHandled == IF FirstStop <= N /\ Rejectable(FirstStop) THEN FirstStop - 1 ELSE IF FirstStop <= N THEN FirstStop ELSE N
 \* a voluntary server close (allowed) can only shorten the outcome; without it the outcome is exact
-FinalIndependent == (phase = "closed" /\ \A k \in 1 .. Len(out) : out[k].close => reqs[out[k].i].close \/ out[k].kind = "reject")
+FinalIndependent == (phase = "closed" /\ \A k \in 1 .. Len(out) : out[k].close => (reqs[out[k].i].close \/ reqs[out[k].i].hclose \/ out[k].kind = "reject"))
                         => \/ Len(hlog) = ExpectedHandled
                            \/ (cfg.streaming /\ Len(hlog) < ExpectedHandled)   \* CloseUnread
 =============================================================================
